@@ -748,5 +748,414 @@ theorem reduce_close (neg : Bool) (c : Nat) (e : Int) (hc : MAXSIG < c) (he : EM
   have : e + (j : Int) + (j' : Int) = e + ((j + j' : Nat) : Int) := by omega
   rw [this]
 
+/-! ### rounding of a quotient `X / D` -/
+
+/-- as `RInv`, for the rational value `X / D` -/
+def RInvD (X D k c dg : Nat) (st : Bool) : Prop :=
+  ∃ t, 10 * X = (c * 10 ^ (k + 1) + dg * 10 ^ k) * D + t ∧ t < 10 ^ k * D ∧ dg < 10 ∧ (st = true ↔ t ≠ 0)
+
+/-- `c4·10^k` is within half a unit `10^k` of `X / D` -/
+def CloseD (X D k c4 : Nat) : Prop :=
+  2 * X ≤ (2 * c4 * 10 ^ k + 10 ^ k) * D ∧ 2 * c4 * 10 ^ k * D ≤ 2 * X + 10 ^ k * D
+
+theorem RInvD_step {X D k c dg : Nat} {st : Bool} (h : RInvD X D k c dg st) :
+    RInvD X D (k + 1) (c / 10) (c % 10) (st || dg != 0) := by
+  obtain ⟨t, h1, h2, h3, h4⟩ := h
+  refine ⟨dg * 10 ^ k * D + t, ?_, ?_, by omega, ?_⟩
+  · have hc : c = 10 * (c / 10) + c % 10 := by omega
+    generalize c / 10 = q at *
+    generalize c % 10 = r at *
+    subst hc
+    rw [h1]
+    simp only [Nat.pow_succ]
+    grind
+  · rw [Nat.pow_succ]
+    have : dg * 10 ^ k * D ≤ 9 * 10 ^ k * D := Nat.mul_le_mul_right _ (Nat.mul_le_mul_right _ (by omega))
+    have e : 10 ^ k * 10 * D = 9 * 10 ^ k * D + 10 ^ k * D := by grind
+    omega
+  · by_cases hd : dg = 0
+    · subst hd; simp [h4]
+    · have hp : 0 < 10 ^ k * D := by
+        rcases Nat.eq_zero_or_pos (10 ^ k * D) with h0 | h0
+        · rw [h0] at h2; omega
+        · exact h0
+      have : 10 ^ k * D ≤ dg * (10 ^ k * D) := Nat.le_mul_of_pos_left _ (by omega)
+      rw [← Nat.mul_assoc] at this
+      simp [hd]; omega
+
+theorem round_closeD {X D k c dg : Nat} {st : Bool} (h : RInvD X D k c dg st) (up : Prop)
+    (hup : up ↔ (if st then dg ≥ 5 else (dg > 5 || (dg == 5 && c % 2 == 1)))) :
+    (¬ up → CloseD X D k c) ∧ (up → CloseD X D k (c + 1)) := by
+  obtain ⟨t, h1, h2, h3, h4⟩ := h
+  rw [Nat.pow_succ] at h1
+  unfold CloseD
+  rw [hup]
+  generalize 10 ^ k = P at *
+  have e1 : (c * (P * 10) + dg * P) * D = 10 * (c * P * D) + dg * (P * D) := by grind
+  have e2 : (2 * (c + 1) * P + P) * D = 2 * (c * P * D) + 3 * (P * D) := by grind
+  have e3 : (2 * c * P + P) * D = 2 * (c * P * D) + P * D := by grind
+  have e4 : 2 * (c + 1) * P * D = 2 * (c * P * D) + 2 * (P * D) := by grind
+  have e5 : 2 * c * P * D = 2 * (c * P * D) := by grind
+  rw [e2, e3, e4, e5]
+  rw [e1] at h1
+  generalize c * P * D = cPD at *
+  generalize P * D = PD at *
+  have hub : dg * PD ≤ 9 * PD := Nat.mul_le_mul_right _ (by omega)
+  cases st with
+  | true =>
+    have ht : t ≠ 0 := h4.mp rfl
+    simp only [if_true]
+    constructor
+    · intro hd
+      have : dg * PD ≤ 4 * PD := Nat.mul_le_mul_right _ (by omega)
+      omega
+    · intro hd
+      have : 5 * PD ≤ dg * PD := Nat.mul_le_mul_right _ (by omega)
+      omega
+  | false =>
+    have ht : t = 0 := by
+      by_cases h : t = 0
+      · exact h
+      · exact absurd (h4.mpr h) (by simp)
+    subst ht
+    simp only [Bool.false_eq_true, if_false]
+    constructor
+    · intro hd
+      have : dg ≤ 5 := by
+        apply Nat.le_of_not_lt; intro h6
+        exact hd (by simp; omega)
+      have : dg * PD ≤ 5 * PD := Nat.mul_le_mul_right _ this
+      omega
+    · intro hd
+      have : 5 ≤ dg := by
+        simp only [Bool.or_eq_true, decide_eq_true_eq, Bool.and_eq_true, beq_iff_eq] at hd
+        omega
+      have : 5 * PD ≤ dg * PD := Nat.mul_le_mul_right _ this
+      omega
+
+theorem dropHigh_specD (X D : Nat) : ∀ (fuel c : Nat) (e : Int) (dg : Nat) (st : Bool) (k : Nat),
+    RInvD X D k c dg st → c < 2 ^ fuel →
+    ∃ j c' dg' st', dropHigh fuel c e dg st = (c', e + (j : Nat), dg', st') ∧ RInvD X D (k + j) c' dg' st' ∧
+      c' ≤ MAXSIG ∧ (c ≤ MAXSIG → j = 0 ∧ c' = c) ∧ (MAXSIG < c → 1 ≤ j ∧ (MAXSIG + 1) / 10 ≤ c')
+  | 0, c, e, dg, st, k, h, hc => by
+    have : c = 0 := by simpa using hc
+    subst this
+    exact ⟨0, 0, dg, st, by simp [dropHigh], by simpa using h, by simp, by simp, by simp [MAXSIG_val]⟩
+  | fuel + 1, c, e, dg, st, k, h, hc => by
+    unfold dropHigh
+    by_cases hgt : c > MAXSIG
+    · simp only [hgt, if_true]
+      obtain ⟨j, c', dg', st', h1, h2, h3, h4, h5⟩ :=
+        dropHigh_specD X D fuel (c / 10) (e + 1) (c % 10) (st || dg != 0) (k + 1) (RInvD_step h)
+          (by rw [Nat.pow_succ] at hc; omega)
+      refine ⟨j + 1, c', dg', st', ?_, ?_, h3, by omega, fun _ => ⟨by omega, ?_⟩⟩
+      · rw [h1]; simp only [Prod.mk.injEq, true_and, and_true]; omega
+      · have : k + (j + 1) = k + 1 + j := by omega
+        rw [this]; exact h2
+      · by_cases h10 : c / 10 ≤ MAXSIG
+        · rw [(h4 h10).2]; rw [MAXSIG_val] at *; omega
+        · exact (h5 (by omega)).2
+    · simp only [hgt, if_false]
+      exact ⟨0, c, dg, st, by simp, by simpa using h, by omega, fun _ => ⟨rfl, rfl⟩, fun h' => h'.elim⟩
+
+theorem roundEven_nocarryD {X D k c dg : Nat} {st : Bool} (fuel : Nat) (e : Int) (h : RInvD X D k c dg st)
+    (hc : c + 1 ≤ MAXSIG) :
+    ∃ c4, roundEven (fuel + 1) c e dg st = (c4, e) ∧ CloseD X D k c4 ∧ c ≤ c4 ∧ c4 ≤ c + 1 ∧ (dg > 5 → c4 = c + 1) := by
+  rw [roundEven_succ]
+  by_cases hup : RoundUp c dg st
+  · have := (round_closeD h _ Iff.rfl).2 hup
+    simp only [hup, if_true, Nat.not_lt.mpr hc, if_false]
+    exact ⟨c + 1, rfl, this, by omega, by omega, fun _ => rfl⟩
+  · have := (round_closeD h _ Iff.rfl).1 hup
+    simp only [hup, if_false]
+    refine ⟨c, rfl, this, by omega, by omega, fun h6 => ?_⟩
+    exfalso; apply hup
+    unfold RoundUp
+    cases st <;> simp <;> omega
+
+theorem roundEven_specD {X D k c dg : Nat} {st : Bool} (fuel : Nat) (e : Int) (h : RInvD X D k c dg st)
+    (hc : c ≤ MAXSIG) :
+    ∃ c4 j, roundEven (fuel + 2) c e dg st = (c4, e + (j : Nat)) ∧ CloseD X D (k + j) c4 ∧ c4 ≤ MAXSIG ∧
+      ((MAXSIG + 1) / 10 ≤ c → (MAXSIG + 1) / 10 ≤ c4) := by
+  by_cases hc1 : c + 1 ≤ MAXSIG
+  · obtain ⟨c4, h1, h2, h3, h4, _⟩ := roundEven_nocarryD (fuel + 1) e h hc1
+    exact ⟨c4, 0, by simpa using h1, by simpa using h2, by omega, by omega⟩
+  · have hcM : c = MAXSIG := by omega
+    rw [roundEven_succ]
+    by_cases hup : RoundUp c dg st
+    · have hgt : c + 1 > MAXSIG := by omega
+      simp only [hup, hgt, if_true]
+      have h10 : c / 10 + 1 ≤ MAXSIG := by rw [MAXSIG_val] at *; omega
+      obtain ⟨c4, h1, h2, h3, h4, h5⟩ := roundEven_nocarryD fuel (e + 1) (RInvD_step h) h10
+      have h9 : c % 10 > 5 := by rw [hcM, MAXSIG_val]; decide
+      have := h5 h9
+      refine ⟨c4, 1, by rw [h1]; simp, h2, by omega, fun _ => ?_⟩
+      rw [this, hcM, MAXSIG_val]; decide
+    · have := (round_closeD h _ Iff.rfl).1 hup
+      simp only [hup, if_false]
+      exact ⟨c, 0, by simp, by simpa using this, hc, fun h => h⟩
+
+/-- **`reduce` of an integer part `q` with a sticky fraction**: `X = q·D + r`, `0 ≤ r < D`, the exact value is `X / D`;
+    when `q > MAXSIG` (digits must be dropped anyway) the result is the correctly rounded `X / D`. -/
+theorem reduce_closeD (neg : Bool) (q r D : Nat) (e : Int) (hr : r < D) (hq : MAXSIG < q) (he : EMIN ≤ e) :
+    ∃ c4 k, 1 ≤ k ∧ c4 ≤ MAXSIG ∧ 10 ^ 33 ≤ c4 ∧ CloseD (q * D + r) D k c4 ∧
+      reduce neg q e (r != 0) = if e + (k : Nat) > EMAX then .inf neg else normalize (.fin neg c4 (e + (k : Nat))) := by
+  have hq0 : q ≠ 0 := by rw [MAXSIG_val] at hq; omega
+  -- the state after the first dropped digit satisfies the invariant
+  have hinv : RInvD (q * D + r) D 1 (q / 10) (q % 10) (r != 0) := by
+    refine ⟨10 * r, ?_, by omega, by omega, by simp; omega⟩
+    have hc : q = 10 * (q / 10) + q % 10 := by omega
+    generalize q / 10 = a at *
+    generalize q % 10 = b at *
+    subst hc
+    grind
+  have hfuel : q / 10 < 2 ^ (Nat.log2 (q + 1) + 1) := by
+    have := lt_two_pow_fuel q
+    rw [Nat.pow_succ] at this
+    omega
+  obtain ⟨j, c1, d1, s1, h1, h2, h3, h4, h5⟩ :=
+    dropHigh_specD (q * D + r) D (Nat.log2 (q + 1) + 1) (q / 10) (e + 1) (q % 10) (r != 0) 1 hinv hfuel
+  have hc1 : (MAXSIG + 1) / 10 ≤ c1 := by
+    by_cases h10 : q / 10 ≤ MAXSIG
+    · rw [(h4 h10).2]; rw [MAXSIG_val] at *; omega
+    · exact (h5 (by omega)).2
+  obtain ⟨c4, j', r1, r2, r3, r4⟩ := roundEven_specD 1 (e + 1 + (j : Nat)) h2 h3
+  have hc4 := r4 hc1
+  refine ⟨c4, 1 + j + j', by omega, r3, by rw [MAXSIG_val] at hc4; omega, r2, ?_⟩
+  unfold reduce
+  simp only [hq0, false_and, if_false]
+  have hdrop : dropHigh (Nat.log2 (q + 1) + 2) q e 0 (r != 0) = (c1, e + 1 + (j : Nat), d1, s1) := by
+    rw [show Nat.log2 (q + 1) + 2 = (Nat.log2 (q + 1) + 1) + 1 from rfl]
+    unfold dropHigh
+    simp only [hq, if_true, bne_self_eq_false, Bool.or_false]
+    exact h1
+  rw [hdrop]
+  simp only []
+  rw [dropLow_id _ _ _ _ _ (by omega)]
+  simp only []
+  have hlt : ¬ (e + 1 + (j : Int) < EMIN) := by omega
+  simp only [hlt, if_false]
+  rw [scaleUp_full _ _ _ (by rw [MAXSIG_val] at *; omega)]
+  simp only []
+  rw [r1]
+  simp only []
+  have : e + 1 + (j : Int) + (j' : Int) = e + ((1 + j + j' : Nat) : Int) := by omega
+  rw [this]
+
+theorem lt_pow_ndigitsAux : ∀ (fuel c : Nat), c < 2 ^ fuel → c < 10 ^ ndigitsAux fuel c
+  | 0, c, h => by simp at h; subst h; simp [ndigitsAux]
+  | fuel + 1, c, h => by
+    unfold ndigitsAux
+    by_cases hc : c = 0
+    · simp [hc]
+    · simp only [hc, if_false]
+      have ih := lt_pow_ndigitsAux fuel (c / 10) (by rw [Nat.pow_succ] at h; omega)
+      rw [Nat.add_comm, Nat.pow_succ]
+      omega
+
+/-- `c` has at most `ndigits c` decimal digits -/
+theorem lt_pow_ndigits (c : Nat) : c < 10 ^ ndigits c := by
+  unfold ndigits
+  apply lt_pow_ndigitsAux
+  have : c < 2 ^ (Nat.log2 c + 1) := Nat.lt_log2_self
+  rw [Nat.pow_succ]; omega
+
+/-- the scaled integer quotient used by `quoFin` always has more than 34 digits -/
+theorem quoFin_q_big (c1 c2 : Nat) (h1 : c1 ≠ 0) (h2 : c2 ≠ 0) : MAXSIG < c1 * 10 ^ (40 + ndigits c2) / c2 := by
+  have hlt := lt_pow_ndigits c2
+  have h40 : MAXSIG < 10 ^ 40 := by decide
+  refine Nat.lt_of_lt_of_le h40 ?_
+  rw [Nat.le_div_iff_mul_le (Nat.pos_of_ne_zero h2), Nat.pow_add]
+  have : 10 ^ 40 * c2 ≤ 10 ^ 40 * 10 ^ ndigits c2 := Nat.mul_le_mul_left _ (Nat.le_of_lt hlt)
+  exact Nat.le_trans this (Nat.le_mul_of_pos_left _ (Nat.pos_of_ne_zero h1))
+
+/-- **`quo_close`**: every quotient of non-zero finite decimals whose exponent does not underflow is the exact
+    quotient `c1·10^K / c2` (`K = 40 + ndigits c2`) correctly rounded: kept coefficient `10^33 ≤ c4 ≤ MAXSIG`,
+    `|c1·10^K / c2 − c4·10^k| ≤ 10^k / 2`. -/
+theorem quo_close (n1 n2 : Bool) (c1 c2 : Nat) (e1 e2 : Int) (h1 : c1 ≠ 0) (h2 : c2 ≠ 0)
+    (he : EMIN ≤ e1 - e2 - ((40 + ndigits c2 : Nat) : Int)) :
+    ∃ c4 k, 1 ≤ k ∧ c4 ≤ MAXSIG ∧ 10 ^ 33 ≤ c4 ∧ CloseD (c1 * 10 ^ (40 + ndigits c2)) c2 k c4 ∧
+      Dec.quo (.fin n1 c1 e1) (.fin n2 c2 e2) =
+        if e1 - e2 - ((40 + ndigits c2 : Nat) : Int) + (k : Nat) > EMAX then .inf (n1 != n2)
+        else normalize (.fin (n1 != n2) c4 (e1 - e2 - ((40 + ndigits c2 : Nat) : Int) + (k : Nat))) := by
+  have hq := quoFin_q_big c1 c2 h1 h2
+  have hr : c1 * 10 ^ (40 + ndigits c2) % c2 < c2 := Nat.mod_lt _ (Nat.pos_of_ne_zero h2)
+  obtain ⟨c4, k, hk, hc4, hc4', hcl, hred⟩ :=
+    reduce_closeD (n1 != n2) _ _ c2 (e1 - e2 - ((40 + ndigits c2 : Nat) : Int)) hr hq he
+  refine ⟨c4, k, hk, hc4, hc4', ?_, ?_⟩
+  · rw [Nat.div_add_mod'] at hcl; exact hcl
+  · simp only [Dec.quo, h1, h2, if_false, quoFin, pow10]
+    exact hred
+
+/-! ### `sum`: a left fold of exact additions -/
+
+/-- the accumulator `acc` holds the exact integer `P` (in units of `10^m`) -/
+def Rep (m : Int) (acc : Dec) (P : Int) : Prop :=
+  (P = 0 ∧ ∃ b, acc = .fin b 0 0) ∨ (P ≠ 0 ∧ acc = normalize (.fin (decide (P < 0)) P.natAbs m))
+
+theorem sval_natAbs_le (n : Bool) (c : Nat) (e m : Int) : (sval n c e m).natAbs = c * 10 ^ (e - m).toNat := by
+  unfold sval pow10
+  generalize 10 ^ (e - m).toNat = p
+  cases n <;> simp [Int.natAbs_neg] <;> omega
+
+theorem sval_eq_zero_iff (n : Bool) (c : Nat) (e m : Int) : sval n c e m = 0 ↔ c = 0 := by
+  have h := sval_natAbs_le n c e m
+  have hp : 0 < 10 ^ (e - m).toNat := Nat.pow_pos (by decide)
+  constructor
+  · intro h0
+    rw [h0] at h
+    rcases Nat.mul_eq_zero.mp h.symm with h | h <;> omega
+  · intro hc; subst hc; simp [sval]
+
+/-- `normalize` only depends on the value: the signed coefficient may be written at any lower exponent -/
+theorem normalize_sval (n : Bool) (c : Nat) (e m : Int) (hm : m ≤ e) (hc : c ≠ 0) :
+    normalize (.fin (decide (sval n c e m < 0)) (sval n c e m).natAbs m) = normalize (.fin n c e) := by
+  rw [sval_natAbs_le, normalize_shift]
+  have : m + ((e - m).toNat : Int) = e := by omega
+  rw [this]
+  have hs : decide (sval n c e m < 0) = n := by
+    have hp : 0 < c * 10 ^ (e - m).toNat := Nat.mul_pos (Nat.pos_of_ne_zero hc) (Nat.pow_pos (by decide))
+    unfold sval pow10
+    generalize 10 ^ (e - m).toNat = p at hp
+    cases n <;> simp <;> omega
+  rw [hs]
+
+theorem rep_step (m : Int) (hm : EMIN ≤ m) {acc : Dec} {P : Int} (h : Rep m acc P) (n : Bool) (c : Nat) (e : Int)
+    (he : m ≤ e) (he' : e ≤ EMAX) (hfit : P.natAbs + c * 10 ^ (e - m).toNat ≤ MAXSIG) :
+    Rep m (Dec.add acc (.fin n c e)) (P + sval n c e m) := by
+  rcases h with ⟨hP, b, rfl⟩ | ⟨hP, rfl⟩
+  · subst hP
+    simp only [Int.zero_add]
+    by_cases hc : c = 0
+    · subst hc
+      left
+      exact ⟨by simp [sval], b && n, by simp [Dec.add, addFin]⟩
+    · right
+      refine ⟨fun h0 => hc ((sval_eq_zero_iff n c e m).mp h0), ?_⟩
+      rw [normalize_sval n c e m he hc]
+      simp [Dec.add, addFin, hc]
+  · obtain ⟨p', k, hn, hk, hp'⟩ := normalize_spec (decide (P < 0)) P.natAbs m (by omega)
+    have hp0 : p' ≠ 0 := by intro h; subst h; simp at hp'
+    rw [hn]
+    by_cases hc : c = 0
+    · subst hc
+      right
+      have : sval n 0 e m = 0 := by simp [sval]
+      rw [this, Int.add_zero]
+      refine ⟨hP, ?_⟩
+      have : Dec.add (.fin (decide (P < 0)) p' (m + k)) (.fin n 0 e) = normalize (.fin (decide (P < 0)) p' (m + k)) := by
+        simp [Dec.add, addFin, hp0]
+      rw [this, ← hn, normalize_idem]
+    · -- both non-zero: `add_exact` at the exponent `em = min (m + k) e ≥ m`
+      have hem : m ≤ min (m + (k : Int)) e := by omega
+      -- P as the signed value of the normalised accumulator
+      have hPs : sval (decide (P < 0)) p' (m + k) m = P := by
+        unfold sval pow10
+        have : (m + (k : Int) - m).toNat = k := by omega
+        rw [this, ← hk]
+        by_cases hneg : P < 0 <;> simp [hneg] <;> omega
+      have hs1 := sval_shift (decide (P < 0)) p' (m + k) (min (m + (k : Int)) e) m hem (by omega)
+      have hs2 := sval_shift n c e (min (m + (k : Int)) e) m hem (by omega)
+      rw [hPs] at hs1
+      generalize hT : ((10 ^ (min (m + (k : Int)) e - m).toNat : Nat) : Int) = T at hs1 hs2
+      have hTpos : 0 < T := by rw [← hT]; exact Int.natCast_pos.mpr (Nat.pow_pos (by decide))
+      generalize hs' : sval (decide (P < 0)) p' (m + k) (min (m + (k : Int)) e) + sval n c e (min (m + (k : Int)) e) = s'
+      have hP' : P + sval n c e m = s' * T := by rw [hs1, hs2, ← hs', Int.add_mul]
+      have habs : (P + sval n c e m).natAbs = s'.natAbs * (10 ^ (min (m + (k : Int)) e - m).toNat) := by
+        rw [hP', Int.natAbs_mul, ← hT]; simp
+      have hle : s'.natAbs ≤ MAXSIG := by
+        have h1 : s'.natAbs ≤ (P + sval n c e m).natAbs := by
+          rw [habs]; exact Nat.le_mul_of_pos_right _ (Nat.pow_pos (by decide))
+        have h2 : (P + sval n c e m).natAbs ≤ P.natAbs + (sval n c e m).natAbs := Int.natAbs_add_le _ _
+        rw [sval_natAbs_le] at h2
+        omega
+      have hadd : Dec.add (.fin (decide (P < 0)) p' (m + k)) (.fin n c e) =
+          normalize (.fin (decide (s' < 0)) s'.natAbs (min (m + (k : Int)) e)) := by
+        show addFin _ _ _ _ _ _ = _
+        unfold addFin
+        simp only [hp0, hc, if_false]
+        have := hs'
+        unfold sval at this
+        rw [this]
+        by_cases h0 : s' = 0
+        · simp [h0, normalize_zero]
+        · simp only [h0, if_false]
+          exact reduce_exact _ _ _ hle (by omega) (by omega)
+      rw [hadd]
+      by_cases h0 : s' = 0
+      · left
+        subst h0
+        refine ⟨by rw [hP']; simp, false, by simp [normalize_zero]⟩
+      · right
+        have hne : P + sval n c e m ≠ 0 := by
+          rw [hP']; intro h
+          rcases Int.mul_eq_zero.mp h with h | h <;> omega
+        refine ⟨hne, ?_⟩
+        rw [habs, normalize_shift]
+        have hsgn : decide (P + sval n c e m < 0) = decide (s' < 0) := by
+          rw [hP']
+          by_cases hneg : s' < 0
+          · have : s' * T < 0 := Int.mul_neg_of_neg_of_pos hneg hTpos
+            simp [hneg, this]
+          · have : 0 ≤ s' * T := Int.mul_nonneg (by omega) (by omega)
+            simp [hneg]; omega
+        rw [hsgn]
+        have : m + ((min (m + (k : Int)) e - m).toNat : Int) = min (m + (k : Int)) e := by omega
+        rw [this]
+
+/-- the exact sum of finite decimals `(neg, c, e)` as an integer in units of `10^m` -/
+def exactSum (m : Int) : List (Bool × Nat × Int) → Int
+  | [] => 0
+  | t :: ts => sval t.1 t.2.1 t.2.2 m + exactSum m ts
+
+/-- the sum of the magnitudes, in units of `10^m` -/
+def magSum (m : Int) : List (Bool × Nat × Int) → Nat
+  | [] => 0
+  | t :: ts => t.2.1 * 10 ^ (t.2.2 - m).toNat + magSum m ts
+
+theorem fold_rep (m : Int) (hm : EMIN ≤ m) : ∀ (ts : List (Bool × Nat × Int)) (acc : Dec) (P : Int), Rep m acc P →
+    (∀ t ∈ ts, m ≤ t.2.2 ∧ t.2.2 ≤ EMAX) → P.natAbs + magSum m ts ≤ MAXSIG →
+    Rep m (ts.foldl (fun a t => Dec.add a (.fin t.1 t.2.1 t.2.2)) acc) (P + exactSum m ts)
+  | [], acc, P, h, _, _ => by simpa [exactSum] using h
+  | t :: ts, acc, P, h, he, hfit => by
+    simp only [List.foldl_cons, exactSum, magSum] at *
+    have het := he t (List.mem_cons_self ..)
+    have hstep := rep_step m hm h t.1 t.2.1 t.2.2 het.1 het.2 (by omega)
+    have hle : (P + sval t.1 t.2.1 t.2.2 m).natAbs ≤ P.natAbs + t.2.1 * 10 ^ (t.2.2 - m).toNat := by
+      have := Int.natAbs_add_le P (sval t.1 t.2.1 t.2.2 m)
+      rw [sval_natAbs_le] at this
+      exact this
+    have := fold_rep m hm ts _ _ hstep (fun t' ht' => he t' (List.mem_cons_of_mem _ ht')) (by omega)
+    rw [Int.add_assoc] at this
+    exact this
+
 end Dec
+
+theorem sumDec_eq_fold : ∀ (xs : List Val) (ts : List (Bool × Nat × Int)) (acc : Dec),
+    xs.map toDecimal = ts.map (fun t => some (Dec.fin t.1 t.2.1 t.2.2)) →
+    sumDec xs acc = some (ts.foldl (fun a t => Dec.add a (.fin t.1 t.2.1 t.2.2)) acc)
+  | [], [], acc, _ => rfl
+  | [], _ :: _, _, h => by simp at h
+  | _ :: _, [], _, h => by simp at h
+  | x :: xs, t :: ts, acc, h => by
+    simp only [List.map_cons, List.cons.injEq] at h
+    simp only [sumDec, h.1, List.foldl_cons]
+    exact sumDec_eq_fold xs ts _ h.2
+
+/-- **`sum` is exact**: for an array of finite decimals `(-1)^n·c·10^e` with exponents in `[m, EMAX]`, `m ≥ EMIN`,
+    whose magnitudes add up (in units of `10^m`) to at most `MAXSIG` — in particular to at most 34 digits — `sum`
+    returns the mathematically exact sum `exactSum m ts · 10^m` (normalised; a zero sum is a zero). -/
+theorem numSum_exact (m : Int) (hm : Dec.EMIN ≤ m) (t : ATag) (xs : List Val) (ts : List (Bool × Nat × Int))
+    (hx : xs.map toDecimal = ts.map (fun t => some (Dec.fin t.1 t.2.1 t.2.2)))
+    (he : ∀ t ∈ ts, m ≤ t.2.2 ∧ t.2.2 ≤ Dec.EMAX) (hfit : Dec.magSum m ts ≤ Dec.MAXSIG) (hok : enumSumOk t xs = true) :
+    ∃ r, numSum (.arr t xs) = .ok (.num (.dec r)) ∧ Dec.Rep m r (Dec.exactSum m ts) := by
+  have hrep := Dec.fold_rep m hm ts Dec.zero 0 (Or.inl ⟨rfl, false, rfl⟩) he (by simpa using hfit)
+  rw [Int.zero_add] at hrep
+  refine ⟨_, ?_, hrep⟩
+  simp only [numSum, sumDec_eq_fold xs ts _ hx, hok, if_true]
+  rcases hrep with ⟨_, b, hb⟩ | ⟨hne, hb⟩
+  · rw [hb]; rfl
+  · obtain ⟨c', k, hn, _, _⟩ := Dec.normalize_spec (decide (Dec.exactSum m ts < 0)) (Dec.exactSum m ts).natAbs m (by omega)
+    rw [hb, hn]; rfl
+
 end Jmes
